@@ -451,7 +451,8 @@ Section Glue.
   | RF64 (bits : Z)
   | RF32 (bits : Z)
   | RHits (h : list (Z * Z)) (ended : bool)
-  | RLoad (ms : list motif) (tail : outcome unit).
+  | RLoad (ms : list motif) (tail : outcome unit)
+  | RUnit.
 
   Definition glue_threshold (sc : SC) (t : pyval) : outcome result :=
     x <~ extract_f32 t ;; l <~ liftp (c_threshold K sc x) ;; Value (RIdx l).
@@ -681,7 +682,8 @@ Section Glue.
   | KCreate (dst : nat) (seqs : pyval) (protein name : option pyval)
   | KGetMotif (dst self : nat) (which : nat)          (* 0 counts, 1 pwm, 2 pssm *)
   | KLoad (dst : nat) (file : file_arg) (format protein : option pyval)
-  | KGetLoaded (dst self : nat) (idx : nat) (which : nat).
+  | KGetLoaded (dst self : nat) (idx : nat) (which : nat)
+  | KDelete (self : nat).      (* the last reference held by the history is dropped (del + gc.collect()) *)
 
   (* outcome of one step as the harness sees it; [Unbound]: the history refers to a slot
      that holds no suitable object, nothing is called *)
@@ -832,6 +834,13 @@ Section Glue.
             | None => (Unbound, unbind st dst)
             end
         | _ => (Unbound, unbind st dst)
+        end
+    | KDelete self =>
+        (* objects derived earlier (scanners, scores, matrices taken from a motif) own or keep alive
+           what they need: dropping a name changes nothing for them *)
+        match lookup st self with
+        | Some _ => (Done (Value RUnit), unbind st self)
+        | None => (Unbound, st)
         end
     end.
 
